@@ -26,7 +26,14 @@ pub enum Src {
     /// module files (`mod voice` / `include("voice.mmm")` resolve relative to main.mmm). The
     /// directory name is derived from the contents, so two projects with the same file names
     /// and different contents live in different directories.
-    Project { main: String, files: Vec<(String, String)> },
+    Project {
+        main: String,
+        files: Vec<(String, String)>,
+        /// a library file (name, text) in a directory of its own that is put on
+        /// `MIMIUM_LIB_PATH` while this project is compiled (and only then)
+        #[serde(default)]
+        lib: Option<(String, String)>,
+    },
 }
 impl Src {
     pub fn load(&self) -> (String, Option<PathBuf>) {
@@ -36,7 +43,7 @@ impl Src {
                 (std::fs::read_to_string(&full).unwrap_or_default(), Some(PathBuf::from(full)))
             }
             Src::Text(t) => (t.clone(), None),
-            Src::Project { main, files } => {
+            Src::Project { main, files, lib } => {
                 let dir = crate::sut::scratch_dir().join("proj").join(self.label().replace(':', "_"));
                 let _ = std::fs::create_dir_all(&dir);
                 let put = |name: &str, text: &str| {
@@ -52,6 +59,16 @@ impl Src {
                     put(n, t);
                 }
                 put("main.mmm", main);
+                if let Some((n, t)) = lib {
+                    let ld = dir.join("libdir");
+                    let _ = std::fs::create_dir_all(&ld);
+                    let dst = ld.join(n);
+                    if !std::fs::read_to_string(&dst).map(|x| &x == t).unwrap_or(false) {
+                        let tmp = ld.join(format!(".{}.{}.tmp", n, std::process::id()));
+                        let _ = std::fs::write(&tmp, t);
+                        let _ = std::fs::rename(&tmp, &dst);
+                    }
+                }
                 (main.clone(), Some(dir.join("main.mmm")))
             }
         }
@@ -60,8 +77,14 @@ impl Src {
         match self {
             Src::File(r) => r.rsplit('/').next().unwrap_or(r).to_string(),
             Src::Text(t) => format!("text:{:08x}", fnv(t.as_bytes()) as u32),
-            Src::Project { main, files } => {
+            Src::Project { main, files, lib } => {
                 let mut all = main.clone();
+                if let Some((n, t)) = lib {
+                    all.push_str("\u{1}");
+                    all.push_str(n);
+                    all.push_str("\u{1}");
+                    all.push_str(t);
+                }
                 for (n, t) in files {
                     all.push_str("\u{0}");
                     all.push_str(n);
@@ -70,6 +93,28 @@ impl Src {
                 }
                 format!("proj:{:016x}", fnv(all.as_bytes()))
             }
+        }
+    }
+}
+
+/// Sets `MIMIUM_LIB_PATH` for the duration of one compilation (the compiling process runs its
+/// compilations one after the other, also those on spawned threads).
+pub struct LibEnv(bool);
+impl LibEnv {
+    pub fn enter(src: &Src) -> LibEnv {
+        if let Src::Project { lib: Some(_), .. } = src {
+            let dir = crate::sut::scratch_dir().join("proj").join(src.label().replace(':', "_")).join("libdir");
+            unsafe { std::env::set_var("MIMIUM_LIB_PATH", dir) };
+            LibEnv(true)
+        } else {
+            LibEnv(false)
+        }
+    }
+}
+impl Drop for LibEnv {
+    fn drop(&mut self) {
+        if self.0 {
+            unsafe { std::env::remove_var("MIMIUM_LIB_PATH") };
         }
     }
 }
@@ -249,6 +294,7 @@ pub fn digest_target(src: &str, path: Option<PathBuf>, samples: u64, dump: bool)
         with_scheduler: true,
         sample_rate: 48000,
         self_init_0: false,
+        with_sampler: false,
     };
     for backend in [Backend::Vm, Backend::WasmP3] {
         let r = guarded(|| -> Result<String, String> {
@@ -279,6 +325,7 @@ pub fn digest_target(src: &str, path: Option<PathBuf>, samples: u64, dump: bool)
 
 fn run_history_item(h: &HistItem) -> (bool, bool) {
     let (src, path) = h.src.load();
+    let _lib_env = LibEnv::enter(&h.src);
     let entry = h.entry;
     let variant = h.ctx_variant;
     let work = move || {
@@ -291,7 +338,7 @@ fn run_history_item(h: &HistItem) -> (bool, bool) {
                 Entry::Bytecode => comp.emit_bytecode(&src).is_ok(),
                 Entry::Wasm => comp.emit_wasm(&src).is_ok(),
                 Entry::RunVm => {
-                    let opts = SutOptions { with_scheduler: true, sample_rate: 48000, self_init_0: false };
+                    let opts = SutOptions { with_scheduler: true, sample_rate: 48000, self_init_0: false, with_sampler: false };
                     match Sut::start(Backend::Vm, &src, path.clone(), &opts, RetireMode::Present) {
                         Ok(mut s) => {
                             let mut o = vec![];
@@ -328,6 +375,7 @@ pub fn child(run: &DetRun, dump: bool) -> (Digests, Digests) {
     let probe: std::collections::HashMap<u32, u32> = (0..12).map(|i| (i, i)).collect();
     let probe_order = probe.keys().map(|k| k.to_string()).collect::<Vec<_>>().join(",");
     let (src, path) = run.target.load();
+    let target_src = run.target.clone();
     let samples = run.samples;
     let history = run.history.clone();
     let placement = run.placement;
@@ -347,6 +395,7 @@ pub fn child(run: &DetRun, dump: bool) -> (Digests, Digests) {
             let src = src.clone();
             let path = path.clone();
             move || {
+                let _lib_env = LibEnv::enter(&target_src);
                 let a = digest_target(&src, path.clone(), samples, dump);
                 // "across repeated compilations in one process"
                 let b = digest_target(&src, path.clone(), samples, dump);
@@ -546,7 +595,17 @@ pub fn gen_nameprog(rng: &mut Rng) -> String {
     rng.shuffle(&mut words);
     let w = |i: usize| words[i];
     let k = |r: &mut Rng| crate::util::lit(r.range(1, 40) as f64 * 0.25);
-    match rng.below(4) {
+    match rng.below(5) {
+        // generic functions instantiated at small and at deeply nested aggregate types (the
+        // instances get generated names derived from the signature)
+        4 => format!(
+            "fn pick{p}(p: a, q: b) -> a {{\n    p\n}}\nfn swap{s}(p: a, q: b) -> (b, a) {{\n    (q, p)\n}}\nfn dsp() -> float {{\n    let small = pick{p}({}, (2.0, 3.0))\n    let (w, x, y, z) = pick{p}((1.0, 2.0, 3.0, {}), (5.0, (6.0, 7.0), (8.0, 9.0, 10.0)))\n    let big = (1.0, (2.0, 3.0), (4.0, 5.0, (6.0, 7.0)), 8.0)\n    let (pr, o) = swap{s}({}, (big, (9.0, 10.0)))\n    let (m, n) = pr\n    let (u, mid, last, e) = m\n    small + w + x + y + z + o + u + e\n}}\n",
+            k(rng),
+            k(rng),
+            k(rng),
+            p = w(0),
+            s = w(1)
+        ),
         0 => format!(
             "mod {a} {{\n    pub fn {f}(x) {{ x + {} }}\n    pub fn only{a}(x) {{ x * 2.0 }}\n}}\nmod {b} {{\n    pub fn {f}(x) {{ x * {} }}\n    pub fn only{b}(x) {{ x * 3.0 }}\n}}\nuse {a}::*\nuse {b}::*\n\nfn dsp() {{\n    {f}(2.0) + only{a}(1.0) + only{b}(1.0)\n}}\n",
             k(rng),
@@ -596,14 +655,23 @@ pub fn gen_project(rng: &mut Rng) -> Src {
     };
     let modsrc = format!("pub fn {f}(x){{\n{body}}}\n");
     let arg = rng.range(1, 4) as f64;
-    let main = if rng.chance(1, 3) {
-        format!("include(\"{m}.mmm\")\nfn dsp(){{\n    {f}({arg:?})\n}}\n")
+    let (head, call) = if rng.chance(1, 3) {
+        (format!("include(\"{m}.mmm\")\n"), format!("{f}({arg:?})"))
     } else if rng.chance(1, 2) {
-        format!("mod {m}\nuse {m}::{f}\nfn dsp(){{\n    {f}({arg:?})\n}}\n")
+        (format!("mod {m}\nuse {m}::{f}\n"), format!("{f}({arg:?})"))
     } else {
-        format!("mod {m}\n\nfn dsp(){{\n    {m}::{f}({arg:?})\n}}\n")
+        (format!("mod {m}\n\n"), format!("{m}::{f}({arg:?})"))
     };
-    Src::Project { main, files: vec![(format!("{m}.mmm"), modsrc)] }
+    // one project in three takes a function from a library file found through MIMIUM_LIB_PATH
+    // (the same file name in every project, other contents)
+    if rng.chance(1, 3) {
+        let g = rng.range(1, 9) as f64 * 0.25;
+        let lib = format!("fn libgain(x){{\n    x * {g:?}\n}}\n");
+        let main = format!("include(\"veriflib.mmm\")\n{head}fn dsp(){{\n    libgain({call})\n}}\n");
+        return Src::Project { main, files: vec![(format!("{m}.mmm"), modsrc)], lib: Some(("veriflib.mmm".into(), lib)) };
+    }
+    let main = format!("{head}fn dsp(){{\n    {call}\n}}\n");
+    Src::Project { main, files: vec![(format!("{m}.mmm"), modsrc)], lib: None }
 }
 
 pub fn gen_c15(seed: u64, corpus: &[String]) -> DetRun {
